@@ -106,6 +106,11 @@ var c06 = gen.Register(&gen.Check[caseC06]{
 			sv := SV{Hex: gen.H(m), Mont: true}
 			out = append(out, caseC06{Op: "square", S: sv, T: sv}, caseC06{Op: "mul", S: sv, T: sv, Alias: true}, caseC06{Op: "add", S: sv, T: sv, Alias: true})
 		}
+		for _, v := range gen.DictFixed(ref.N, gen.DictStride()) {
+			sv := SV{Hex: gen.H(v)}
+			out = append(out, caseC06{Op: "invert", S: sv, T: sv}, caseC06{Op: "square", S: sv, T: sv}, caseC06{Op: "mul", S: sv, T: SV{Hex: gen.H(v), Mont: true}},
+				caseC06{Op: "invert", S: SV{Hex: gen.H(v), Mont: true}, T: sv})
+		}
 		for _, op := range []string{"add", "sub", "mul", "pow", "set"} {
 			c := mkC06(op, big.NewInt(7), two)
 			c.NilT = true
